@@ -9,9 +9,11 @@
      collect_* calls in which every call only uses handles whose creating call has returned;
      c is the configuration reached, evs the handles and collect results returned on the way.
    - `value_of_lineage` is defined by recursion on the lineage term alone. *)
-From Coq Require Import List Arith Bool.
+From Coq Require Import List Arith NArith Bool.
 From IB Require Import Pipeline.Graph Pipeline.History Pipeline.Invariant Pipeline.Rename.
+From IB Require Import Pipeline.Source Pipeline.Multi.
 From IB Require Import Proofs.PipelineGraph Proofs.PipelineInv Proofs.PipelineMain Proofs.PipelineLazy.
+From IB Require Import Proofs.PipelineSource Proofs.PipelineMulti.
 Import ListNotations.
 
 (* ---------- the invariant ---------- *)
@@ -106,6 +108,141 @@ Theorem c08_lazy :
       c_pool c' = map (map_handle phi psi) (c_pool c) /\
       forall t, c_threads c' t = map_tstate phi psi (c_threads c t).
 Proof. exact lazy_renaming. Qed.
+
+(* ---------- what a Source node reads (Pipeline/Source.v) ---------- *)
+(* Reading guide: a `source` is a payload with its VecOps adapter (from_vec, from_custom_source,
+   read_*_streaming); `seq_read` is the Source arm of the sequential engine (clone_any),
+   `par_head` / `par_read` the head of the parallel engine (len -> partition request -> split,
+   falling back to clone_any); `lawful o p rows`: clone_any yields rows and whenever split
+   answers, its partitions are rows in order. *)
+
+(* both engines, for every partition count, read a lawful source as the SAME list of rows:
+   the `d` of the graph model's `NSource d` *)
+Theorem c08_source_read_mode_independent :
+  forall (V : Type) (s : source V) (rows : list V),
+    lawful (s_ops s) (s_payload s) rows ->
+    seq_read s = ROk rows /\
+    forall partitions : nat,
+      par_read s partitions = ROk rows /\
+      (exists ps, par_head s partitions = ROk ps /\ concat ps = rows) /\
+      1 <= par_parts s partitions <= Nat.max partitions 1.
+Proof. exact source_modes. Qed.
+
+(* VecOpsImpl (from_vec), a user adapter that hides the length, the paged user adapter with
+   every len / split behaviour: all lawful, for all data *)
+Theorem c08_builtin_sources_lawful :
+  forall V : Type,
+    (forall v : list V, lawful impl_ops v v) /\
+    (forall P (o : vec_ops V P) p rows, lawful o p rows -> lawful (nolen_ops o) p rows) /\
+    (forall len_known sm (pg : list (list V)), lawful (pages_ops len_known sm) pg (concat pg)).
+Proof. exact builtin_sources_lawful. Qed.
+
+(* the streamed JSONL (blank lines counted for the ranges, skipped by the reader) / CSV / Parquet
+   sources: lawful for every file and every shard size (0 behaves as 1) *)
+Theorem c08_streamed_sources_lawful :
+  forall V : Type,
+    (forall (ls : list (option V)) (per : N),
+        lawful jsonl_ops (build_jsonl_shards ls per) (rows_of_lines ls)) /\
+    (forall (rows : list V) (per : N), lawful csv_ops (build_csv_shards rows per) rows) /\
+    (forall (groups : list (list V)) (per : N),
+        lawful parquet_ops (build_parquet_shards groups per) (concat groups)).
+Proof. exact streamed_sources_lawful. Qed.
+
+(* len() = None ("size unknown until read"): the parallel engine asks for ONE partition and
+   still returns the rows - never an empty result (seeded change C08-r4m3) *)
+Theorem c08_unknown_length_source :
+  forall (V P : Type) (o : vec_ops V P) (p : P) (rows : list V) (partitions : nat),
+    lawful o p rows ->
+    let s := mk_source P (nolen_ops o) p in
+    par_parts s partitions = 1 /\ par_read s partitions = ROk rows /\ seq_read s = ROk rows.
+Proof. exact nolen_source_reads. Qed.
+
+(* One adapter OBJECT shared by many sources (an `Arc<dyn VecOps>` may keep state: the model
+   threads a state through all calls): if the adapter is lawful in every state, then for ANY
+   program of reads - any order, repetition, modes, partition counts - every read returns the
+   rows of its own payload: collecting other collections never changes what one returns *)
+Theorem c08_shared_adapter_reads :
+  forall (V St P : Type) (o : st_ops V St P) (ok : P -> Prop) (rows : P -> list V),
+    st_lawful o ok rows ->
+    forall (l : list (P * read_mode)) (st : St),
+      Forall (fun pm => ok (fst pm)) l ->
+      st_reads o st l = map (fun pm => ROk (rows (fst pm))) l.
+Proof. exact shared_adapter_reads. Qed.
+
+(* ... which holds for the (stateless) JSONL adapter over any files and shard sizes *)
+Theorem c08_jsonl_shared_adapter :
+  forall (V : Type) (l : list (list (option V) * N * read_mode)),
+    st_reads (pure_st jsonl_ops) tt
+             (map (fun x => (build_jsonl_shards (fst (fst x)) (snd (fst x)), snd x)) l)
+    = map (fun x => ROk (rows_of_lines (fst (fst x)))) l.
+Proof. exact jsonl_shared_reads. Qed.
+
+(* ... and FAILS for an adapter that remembers decoded shards by line range (seeded change
+   C08-r4m1): with two files of equal line ranges, the file read first defines what the other
+   returns; the stateless adapter returns each file's own rows *)
+Theorem c08_memo_adapter_refuted :
+  let a := build_jsonl_shards [Some 1; Some 2; Some 3; Some 4] 2%N in
+  let b := build_jsonl_shards [Some 10; Some 20; Some 30; Some 40] 2%N in
+  st_reads memo_jsonl_ops [] [(a, RdSeq); (b, RdSeq); (b, RdPar 2); (a, RdPar 2)]
+    = [ROk [1; 2; 3; 4]; ROk [1; 2; 3; 4]; ROk [10; 20; 30; 40]; ROk [10; 20; 30; 40]]
+  /\ st_reads (pure_st jsonl_ops) tt [(a, RdSeq); (b, RdSeq); (b, RdPar 2); (a, RdPar 2)]
+    = [ROk [1; 2; 3; 4]; ROk [10; 20; 30; 40]; ROk [10; 20; 30; 40]; ROk [1; 2; 3; 4]].
+Proof. exact memo_adapter_refuted. Qed.
+
+(* the handle of a lawful custom source, in any history and after any continuation: collect
+   returns exactly the rows both engines read from the source *)
+Theorem c08_custom_source_rerunnable :
+  forall (V F G : Type) (interp_f : F -> list V -> list V)
+         (interp_g : G -> list V -> list V -> list V)
+         (s : source V) (rows : list V)
+         (h1 h2 : list (label V F G)) (c1 c2 : config V F G) (e1 e2 : list (event V F G))
+         (x : handle V F G),
+    lawful (s_ops s) (s_payload s) rows ->
+    run init_config h1 = Some (c1, e1) ->
+    In x (c_pool c1) -> h_lin x = LSrc rows ->
+    run c1 h2 = Some (c2, e2) ->
+    collect interp_f interp_g (c_state c2) x = Ok rows /\
+    seq_read s = ROk rows /\
+    forall partitions : nat, par_read s partitions = ROk rows.
+Proof. exact custom_source_rerunnable. Qed.
+
+(* ---------- several pipelines ---------- *)
+(* Reading guide (Pipeline/Multi.v): a multi-pipeline configuration is a family of pipeline
+   configurations; a step names the pipeline whose lock it takes; `proj q h` = the steps of h on
+   pipeline q.  Thread identifiers are global. *)
+
+(* pipelines are independent state machines: whatever the other pipelines do in between, a
+   history acts on pipeline q exactly like its projection on q *)
+Theorem c08_pipelines_independent :
+  forall (V F G : Type) (h : list (mlabel V F G)) (mc mc' : mconfig V F G)
+         (evs : list (event V F G)),
+    mrun mc h = Some (mc', evs) ->
+    forall q, exists evs_q,
+      run (mc q) (proj q h) = Some (mc' q, evs_q) /\ (forall e, In e evs_q -> In e evs).
+Proof. exact mrun_proj. Qed.
+
+(* every pipeline of every reachable multi-pipeline configuration satisfies the invariant and has
+   pairwise distinct node and handle ids (ids are per pipeline: two pipelines both start at 0) *)
+Theorem c08_multi_pipeline_reachable :
+  forall (V F G : Type) (h : list (mlabel V F G)) (mc : mconfig V F G) (evs : list (event V F G)),
+    mrun minit h = Some (mc, evs) ->
+    forall q,
+      Inv (mc q) /\
+      NoDup (map fst (nodes (c_state (mc q)))) /\
+      NoDup (map h_id (c_pool (mc q))) /\
+      exists evs_q, run init_config (proj q h) = Some (mc q, evs_q).
+Proof. exact multi_reachable. Qed.
+
+(* every collect of every multi-pipeline history returns the lineage value *)
+Theorem c08_multi_pipeline_collect :
+  forall (V F G : Type) (interp_f : F -> list V -> list V)
+         (interp_g : G -> list V -> list V -> list V)
+         (h : list (mlabel V F G)) (mc : mconfig V F G) (evs : list (event V F G))
+         (t : nat) (x : handle V F G) (plan : outcome (list (node V F G))),
+    mrun minit h = Some (mc, evs) ->
+    In (EvCollect t x plan) evs ->
+    collect_value interp_f interp_g plan = value_of_lineage interp_f interp_g (h_lin x).
+Proof. exact multi_collect_events. Qed.
 
 (* ======================= non-vacuity examples ======================= *)
 (* V = nat, a user function name n means "add n to every element", the only join name means
@@ -265,4 +402,177 @@ Proof.
   destruct (c08_lazy _ _ _ unit unit (fun _ => tt) (fun u => u) _ _ _ E) as (c' & Hr & _ & Hp & _).
   exists c, evs, c'. split; [reflexivity|]. split; [exact Hr|].
   rewrite Hp, map_map. vm_compute in E. inversion E; subst. reflexivity.
+Qed.
+
+(* ---------- sources ---------- *)
+(* a JSONL file with a blank line, 2 lines per shard: len = 5 lines, 3 partitions, 4 rows *)
+Definition ex_lines : list (option nat) := [Some 1; None; Some 2; Some 3; Some 4].
+Example c08_source_read_mode_independent_ex :
+  let s := jsonl_source ex_lines 2%N in
+  lawful (s_ops s) (s_payload s) [1; 2; 3; 4] /\
+  seq_read s = ROk [1; 2; 3; 4] /\
+  par_head s 7 = ROk [[1]; [2; 3]; [4]] /\ par_parts s 7 = 5 /\
+  par_read s 0 = ROk [1; 2; 3; 4].
+Proof.
+  intros s.
+  assert (HL : lawful (s_ops s) (s_payload s) [1; 2; 3; 4])
+    by exact (proj1 (c08_streamed_sources_lawful nat) ex_lines 2%N).
+  split; [exact HL|].
+  split; [exact (proj1 (c08_source_read_mode_independent _ s _ HL))|].
+  split; [reflexivity|]. split; [reflexivity|].
+  exact (proj1 (proj2 (c08_source_read_mode_independent _ s _ HL) 0)).
+Qed.
+
+Example c08_builtin_sources_lawful_ex :
+  lawful impl_ops [1; 2; 3; 4; 5] [1; 2; 3; 4; 5] /\
+  vo_split impl_ops [1; 2; 3; 4; 5] 2 = Some [[1; 2; 3]; [4; 5]] /\
+  lawful (pages_ops false SplitPages) [[1; 2]; []; [3]] [1; 2; 3] /\
+  vo_split (pages_ops true SplitChunks) [[1; 2]; []; [3]] 3 = Some [[1]; [2]; [3]] /\
+  vo_split (pages_ops true SplitNone) [[1; 2]; []; [3]] 3 = None.
+Proof.
+  split; [exact (proj1 (c08_builtin_sources_lawful nat) _)|]. split; [reflexivity|].
+  split; [exact (proj2 (proj2 (c08_builtin_sources_lawful nat)) false SplitPages [[1; 2]; []; [3]])|].
+  split; reflexivity.
+Qed.
+
+Example c08_streamed_sources_lawful_ex :
+  lawful csv_ops (build_csv_shards [1; 2; 3; 4; 5] 2%N) [1; 2; 3; 4; 5] /\
+  vo_split csv_ops (build_csv_shards [1; 2; 3; 4; 5] 2%N) 9 = Some [[1; 2]; [3; 4]; [5]] /\
+  lawful parquet_ops (build_parquet_shards [[1; 2]; [3]; [4; 5]] 2%N) [1; 2; 3; 4; 5] /\
+  vo_split parquet_ops (build_parquet_shards [[1; 2]; [3]; [4; 5]] 2%N) 1 = Some [[1; 2; 3]; [4; 5]] /\
+  vo_len parquet_ops (build_parquet_shards [[1; 2]; [3]; [4; 5]] 0%N) = Some 5.
+Proof.
+  split; [exact (proj1 (proj2 (c08_streamed_sources_lawful nat)) [1; 2; 3; 4; 5] 2%N)|].
+  split; [reflexivity|].
+  split; [exact (proj2 (proj2 (c08_streamed_sources_lawful nat)) [[1; 2]; [3]; [4; 5]] 2%N)|].
+  split; reflexivity.
+Qed.
+
+(* the paged feed of the seeded change's demonstration: len unknown, three pages *)
+Example c08_unknown_length_source_ex :
+  let s := mk_source (list (list nat)) (nolen_ops (pages_ops true SplitPages)) [[1; 2]; [3]; [4; 5; 6]] in
+  vo_len (s_ops s) (s_payload s) = None /\
+  par_parts s 3 = 1 /\ par_head s 3 = ROk [[1; 2]; [3]; [4; 5; 6]] /\
+  par_read s 3 = ROk [1; 2; 3; 4; 5; 6] /\ seq_read s = ROk [1; 2; 3; 4; 5; 6].
+Proof.
+  intros s. split; [reflexivity|].
+  assert (HL : lawful (pages_ops true SplitPages) [[1; 2]; [3]; [4; 5; 6]] [1; 2; 3; 4; 5; 6])
+    by exact (proj2 (proj2 (c08_builtin_sources_lawful nat)) true SplitPages _).
+  destruct (c08_unknown_length_source _ _ _ _ _ 3 HL) as (H1 & H2 & H3).
+  split; [exact H1|]. split; [reflexivity|]. split; [exact H2|exact H3].
+Qed.
+
+(* an adapter with state that IS lawful: it counts its calls *)
+Definition ex_counting : st_ops nat nat (list nat) :=
+  mk_st_ops (fun _ v => Some (length v)) (fun c v n => (S c, Some (impl_split v n)))
+            (fun c v => (S c, Some v)).
+Example c08_shared_adapter_reads_ex :
+  st_lawful ex_counting (fun _ => True) (fun v => v) /\
+  st_reads ex_counting 0 [([1; 2; 3], RdPar 2); ([7; 8], RdSeq); ([1; 2; 3], RdSeq)]
+    = [ROk [1; 2; 3]; ROk [7; 8]; ROk [1; 2; 3]].
+Proof.
+  assert (HL : st_lawful ex_counting (fun _ => True) (fun v => v)).
+  { intros st p _. split; [reflexivity|]. intros n ps H. cbn in H. inversion H.
+    exact (proj2 (proj1 (c08_builtin_sources_lawful nat) p) n _ eq_refl). }
+  split; [exact HL|].
+  apply (c08_shared_adapter_reads _ _ _ ex_counting _ _ HL). repeat constructor.
+Qed.
+
+Example c08_jsonl_shared_adapter_ex :
+  st_reads (pure_st jsonl_ops) tt
+           [(build_jsonl_shards [Some 1; None; Some 2] 2%N, RdPar 4);
+            (build_jsonl_shards [Some 7; Some 8; None] 2%N, RdSeq);
+            (build_jsonl_shards [Some 1; None; Some 2] 2%N, RdSeq)]
+  = [ROk [1; 2]; ROk [7; 8]; ROk [1; 2]].
+Proof.
+  exact (c08_jsonl_shared_adapter nat
+           [([Some 1; None; Some 2], 2%N, RdPar 4); ([Some 7; Some 8; None], 2%N, RdSeq);
+            ([Some 1; None; Some 2], 2%N, RdSeq)]).
+Qed.
+
+Example c08_memo_adapter_refuted_ex :
+  snd (st_read memo_jsonl_ops [] (build_jsonl_shards [Some 1; Some 2] 1%N) RdSeq) = ROk [1; 2] /\
+  st_reads memo_jsonl_ops [] [(build_jsonl_shards [Some 1; Some 2] 1%N, RdSeq);
+                              (build_jsonl_shards [Some 5; Some 6] 1%N, RdSeq)]
+    = [ROk [1; 2]; ROk [1; 2]].
+Proof. vm_compute. split; reflexivity. Qed.
+
+(* a custom source created by thread 1 while thread 0 is between insert and connect; collected
+   after more building *)
+Example c08_custom_source_rerunnable_ex :
+  let s := jsonl_source ex_lines 2%N in
+  let h1 : list (label nat nat unit) :=
+    [ (0, Some (CSource [9])); (0, Some (CDerive 1 0)); (1, Some (CSource [1; 2; 3; 4])); (0, None) ] in
+  let h2 : list (label nat nat unit) := [ (1, Some (CDerive 5 1)); (1, None); (0, Some (CJoin tt 1 3)) ] in
+  let x : handle nat nat unit := mk_handle 2 (LSrc [1; 2; 3; 4]) in
+  exists c1 e1 c2 e2,
+    run init_config h1 = Some (c1, e1) /\ In x (c_pool c1) /\ run c1 h2 = Some (c2, e2) /\
+    collect ex_f ex_g (c_state c2) x = Ok [1; 2; 3; 4] /\ par_read s 3 = ROk [1; 2; 3; 4].
+Proof.
+  intros s h1 h2 x.
+  destruct (run init_config h1) as [[c1 e1]|] eqn:E1; [|vm_compute in E1; discriminate].
+  destruct (run c1 h2) as [[c2 e2]|] eqn:E2;
+    [|vm_compute in E1; inversion E1; subst; vm_compute in E2; discriminate].
+  assert (Hin : In x (c_pool c1)) by (vm_compute in E1; inversion E1; subst; cbn; auto).
+  assert (HL : lawful (s_ops s) (s_payload s) [1; 2; 3; 4])
+    by exact (proj1 (c08_streamed_sources_lawful nat) ex_lines 2%N).
+  destruct (c08_custom_source_rerunnable _ _ _ ex_f ex_g s _ h1 h2 _ _ _ _ x HL E1 Hin eq_refl E2)
+    as (Hc & _ & Hp).
+  exists c1, e1, c2, e2. split; [reflexivity|]. split; [exact Hin|]. split; [exact E2|].
+  split; [exact Hc|exact (Hp 3)].
+Qed.
+
+(* ---------- several pipelines ---------- *)
+(* two pipelines: thread 0 builds source + map on pipeline 0, thread 1 a source on pipeline 1 and
+   collects it while thread 0 is between insert and connect; both pipelines number from 0 *)
+Definition ex_mh : list (mlabel nat nat unit) :=
+  [ (0, (0, Some (CSource [1; 2]))); (1, (1, Some (CSource [5])));
+    (0, (0, Some (CDerive 10 0))); (1, (1, Some (CCollect 0))); (0, (0, None));
+    (1, (1, None)); (1, (1, None));
+    (0, (0, Some (CCollect 1))); (0, (0, None)); (0, (0, None)) ].
+
+Example c08_pipelines_independent_ex :
+  exists mc evs evs0,
+    mrun minit ex_mh = Some (mc, evs) /\
+    proj 0 ex_mh = [ (0, Some (CSource [1; 2])); (0, Some (CDerive 10 0)); (0, None);
+                     (0, Some (CCollect 1)); (0, None); (0, None) ] /\
+    run init_config (proj 0 ex_mh) = Some (mc 0, evs0) /\
+    next_id (c_state (mc 0)) = 2 /\ next_id (c_state (mc 1)) = 1 /\ next_id (c_state (mc 2)) = 0.
+Proof.
+  destruct (mrun minit ex_mh) as [[mc evs]|] eqn:E; [|vm_compute in E; discriminate].
+  destruct (c08_pipelines_independent _ _ _ _ _ _ _ E 0) as [evs0 [Hr _]].
+  exists mc, evs, evs0. split; [reflexivity|]. split; [reflexivity|]. split; [exact Hr|].
+  vm_compute in E. inversion E; subst. repeat split.
+Qed.
+
+Example c08_multi_pipeline_reachable_ex :
+  exists mc evs,
+    mrun minit ex_mh = Some (mc, evs) /\ Inv (mc 0) /\ Inv (mc 1) /\
+    map h_id (c_pool (mc 0)) = [0; 1] /\ map h_id (c_pool (mc 1)) = [0].
+Proof.
+  destruct (mrun minit ex_mh) as [[mc evs]|] eqn:E; [|vm_compute in E; discriminate].
+  exists mc, evs. split; [reflexivity|].
+  split; [exact (proj1 (c08_multi_pipeline_reachable _ _ _ _ _ _ E 0))|].
+  split; [exact (proj1 (c08_multi_pipeline_reachable _ _ _ _ _ _ E 1))|].
+  vm_compute in E. inversion E; subst. split; reflexivity.
+Qed.
+
+Example c08_multi_pipeline_collect_ex :
+  exists mc evs plan0 plan1,
+    mrun minit ex_mh = Some (mc, evs) /\
+    In (EvCollect 0 (mk_handle 1 (LDerive 10 (LSrc [1; 2]))) plan0) evs /\
+    In (EvCollect 1 (mk_handle 0 (LSrc [5])) plan1) evs /\
+    collect_value ex_f ex_g plan0 = Ok [11; 12] /\ collect_value ex_f ex_g plan1 = Ok [5].
+Proof.
+  destruct (mrun minit ex_mh) as [[mc evs]|] eqn:E; [|vm_compute in E; discriminate].
+  exists mc, evs, (Ok [NSource [1; 2]; NStateless 10]), (Ok [NSource [5]]).
+  assert (H0 : In (EvCollect 0 (mk_handle 1 (LDerive 10 (LSrc [1; 2])))
+                             (Ok [NSource [1; 2]; NStateless 10])) evs)
+    by (vm_compute in E; inversion E; subst; cbn; auto 10).
+  assert (H1 : In (EvCollect 1 (mk_handle 0 (LSrc [5])) (Ok [NSource [5]])) evs)
+    by (vm_compute in E; inversion E; subst; cbn; auto 10).
+  split; [reflexivity|]. split; [exact H0|]. split; [exact H1|].
+  split.
+  - rewrite (c08_multi_pipeline_collect _ _ _ ex_f ex_g _ _ _ _ _ _ E H0). reflexivity.
+  - rewrite (c08_multi_pipeline_collect _ _ _ ex_f ex_g _ _ _ _ _ _ E H1). reflexivity.
 Qed.
